@@ -489,7 +489,7 @@ func processInitSegment(log *slog.Logger, ch *channel, s stream, data []byte, is
 }
 
 func handleMPD(w http.ResponseWriter, req *http.Request, storage, chName string) {
-	err := os.MkdirAll(chName, 0755)
+	err := os.MkdirAll(filepath.Join(storage, chName), 0755)
 	if err != nil {
 		slog.Error("Failed to create directory", "err", err)
 		http.Error(w, "Failed to create directory", http.StatusInternalServerError)
